@@ -625,9 +625,14 @@ Record split := { sp_action : option action }.
 Record mtch := { m_conds : nat; m_action : option action; m_splits : list split }.
 (* conf_v1.ErrorPage{Codes; Return *ErrorPageReturn; Redirect *ErrorPageRedirect} *)
 Record errpage := { ep_return : option unit; ep_redirect : option unit }.
-(* conf_v1.Route{Path; Route string; Action *Action; Splits; Matches; ErrorPages} *)
+(* the kind of a route path: prefix ("/r"), exact ("=/r") or regular expression ("~ ^/r") *)
+Inductive pkind := PkPrefix | PkExact | PkRegex.
+(* conf_v1.Route{Path; Route string; Action *Action; Splits; Matches; ErrorPages}.
+   rt_kind: the kind of Path; rt_match (subroutes of a VirtualServerRoute): Path agrees with the
+   path of the VirtualServer route that references the VirtualServerRoute (equal to it for
+   exact/regex, has it as a prefix otherwise) *)
 Record route := { rt_action : option action; rt_splits : list split; rt_matches : list mtch;
-                  rt_errpages : list errpage; rt_route : bool }.
+                  rt_errpages : list errpage; rt_route : bool; rt_kind : pkind; rt_match : bool }.
 
 Definition b2n (b : bool) : nat := if b then 1 else 0.
 Definition is_some {A} (o : option A) : bool := match o with Some _ => true | None => false end.
@@ -774,24 +779,7 @@ Definition gen_vs (v : vserver_obj) : R unit :=
   _ <- for_all_unit gen_upstream (vo_upstreams v) ;;
   for_all_unit (gen_route true) (vo_routes v).
 
-(* prior states for a VirtualServer: nothing; an older VirtualServer on the same host (the new
-   one does not get the host, so no configuration is generated for it); a GlobalConfiguration *)
-Inductive vctx := VCEmpty | VCOlder | VCGlobal.
-
 Record crd_obs := { c_validate : outcome; c_store : outcome; c_extend : outcome; c_delete : outcome }.
-
-Definition vs_observe (plus certmgr : bool) (c : vctx) (v : vserver_obj) : crd_obs :=
-  let rej := validate_vs plus certmgr v in
-  let gc := match c with VCGlobal => true | _ => false end in
-  let holds := match c with VCOlder => false | _ => true end in
-  let store := if rej then Val true else (_ <- vs_listeners gc v ;; Val false) in
-  {| c_validate := if rej then ORejected else OOk;
-     c_store := verdict store;
-     c_extend := match store with
-                 | Val false => if holds then unit_outcome (gen_vs v) else OOk
-                 | _ => OOk
-                 end;
-     c_delete := OOk |}.
 
 Definition crd_worst (o : crd_obs) : outcome :=
   worst (c_validate o) (worst (c_store o) (worst (c_extend o) (c_delete o))).
@@ -799,6 +787,7 @@ Definition crd_worst (o : crd_obs) : outcome :=
 (* --- VirtualServerRoute: upstreams and subroutes (route references are forbidden) *)
 Record vsroute_obj := { vr_upstreams : list upstream; vr_subroutes : list route }.
 
+(* ValidateVirtualServerRoute (stand-alone: vsPath = "", the prefix branch without a prefix) *)
 Definition validate_vsr (plus : bool) (v : vsroute_obj) : bool :=
   existsb (validate_upstream plus) (vr_upstreams v) || existsb (validate_route true) (vr_subroutes v).
 
@@ -806,16 +795,110 @@ Definition gen_vsr (v : vsroute_obj) : R unit :=
   _ <- for_all_unit gen_upstream (vr_upstreams v) ;;
   for_all_unit (gen_route false) (vr_subroutes v).
 
-(* prior states: no VirtualServer (the route is an orphan, nothing is generated); a
-   VirtualServer that references the route and holds the host *)
-Inductive rctx := RCOrphan | RCReferenced.
+(* validateVirtualServerRouteSubroutes(routes, vsPath) as reached from
+   ValidateVirtualServerRouteForVirtualServer (arbitration: buildVirtualServerRoutes re-validates
+   every referenced VirtualServerRoute against the path of the route that references it):
+   regex/exact vsPath: [len(routes) != 1] returns before [routes[0].Path];
+   otherwise every subroute is validated and must start with vsPath *)
+Definition revalidate_subroutes (k : pkind) (subs : list route) : R bool :=
+  match k with
+  | PkPrefix => Val (existsb (fun r => validate_route true r || negb (rt_match r)) subs)
+  | _ =>
+      if negb (Nat.eqb (List.length subs) 1) then Val true
+      else
+        r0 <- index0 subs ;;                          (* routes[0] *)
+        if negb (rt_match r0) then Val true else Val (validate_route true r0)
+  end.
+
+(* validateVirtualServerRouteSpec(spec, virtualServerHost, vsPath): host (equal here), upstreams,
+   subroutes; the error lists are concatenated, so the subroutes are looked at in any case *)
+Definition revalidate_vsr (plus : bool) (k : pkind) (v : vsroute_obj) : R bool :=
+  let e := existsb (validate_upstream plus) (vr_upstreams v) in
+  r <- revalidate_subroutes k (vr_subroutes v) ;;
+  Val (e || r).
+
+(* buildVirtualServerRoutes(vs): for every route with a reference to the stored
+   VirtualServerRoute: re-validate; attach it when valid, warn otherwise *)
+Fixpoint attach_vsrs (plus : bool) (routes : list route) (stored : option vsroute_obj) : R (list vsroute_obj) :=
+  match routes with
+  | [] => Val []
+  | r :: t =>
+      this <- (if negb (rt_route r) then Val []
+               else match stored with
+                    | None => Val []                   (* "doesn't exist or invalid": a warning *)
+                    | Some v => bad <- revalidate_vsr plus (rt_kind r) v ;;
+                                Val (if (bad : bool) then [] else [v])
+                    end) ;;
+      rest <- attach_vsrs plus t stored ;;
+      Val (this ++ rest)
+  end.
+
+(* prior states for a VirtualServer: nothing; an older VirtualServer on the same host (the new
+   one does not get the host, so no configuration is generated for it); a GlobalConfiguration;
+   a stored (valid) VirtualServerRoute under the name the route references use, with no
+   subroutes, one subroute whose path is the path of the VirtualServer's route, one subroute
+   with another path, or two subroutes *)
+Inductive vctx := VCEmpty | VCOlder | VCGlobal | VCVsr0 | VCVsr1 | VCVsr1Other | VCVsr2.
+
+Definition plain_pass (k : pkind) (m : bool) : route :=
+  {| rt_action := Some {| a_pass := true; a_redirect := None; a_return := None; a_proxy := None |};
+     rt_splits := []; rt_matches := []; rt_errpages := []; rt_route := false; rt_kind := k; rt_match := m |}.
+
+Definition bare_upstream : upstream :=
+  {| u_health := None; u_cookie := None; u_queue := None; u_buffers := None; u_backup := false;
+     u_backup_port := None; u_ints := None |}.
+
+(* the stored VirtualServerRoute of a prior state, given the path kind of the routes of the
+   VirtualServer under test *)
+Definition partner_vsr (c : vctx) (k : pkind) : option vsroute_obj :=
+  match c with
+  | VCVsr0 => Some {| vr_upstreams := []; vr_subroutes := [] |}
+  | VCVsr1 => Some {| vr_upstreams := [bare_upstream]; vr_subroutes := [plain_pass k true] |}
+  | VCVsr1Other => Some {| vr_upstreams := [bare_upstream]; vr_subroutes := [plain_pass PkPrefix false] |}
+  | VCVsr2 => Some {| vr_upstreams := [bare_upstream]; vr_subroutes := [plain_pass k true; plain_pass k true] |}
+  | _ => None
+  end.
+
+Definition routes_kind (v : vserver_obj) : pkind :=
+  match vo_routes v with r :: _ => rt_kind r | [] => PkPrefix end.
+
+Definition vs_observe (plus certmgr : bool) (c : vctx) (v : vserver_obj) : crd_obs :=
+  let rej := validate_vs plus certmgr v in
+  let gc := match c with VCGlobal => true | _ => false end in
+  let holds := match c with VCOlder => false | _ => true end in
+  (* AddOrUpdateVirtualServer: validate; rebuildHosts: buildVirtualServerRoutes, buildListeners *)
+  let store := if rej then Val None
+               else (vsrs <- attach_vsrs plus (vo_routes v) (partner_vsr c (routes_kind v)) ;;
+                     _ <- vs_listeners gc v ;; Val (Some vsrs)) in
+  {| c_validate := if rej then ORejected else OOk;
+     c_store := match store with Val None => ORejected | Val (Some _) => OOk | Pan => OPanic end;
+     c_extend := match store with
+                 | Val (Some vsrs) =>
+                     if holds then unit_outcome (_ <- gen_vs v ;; for_all_unit gen_vsr vsrs) else OOk
+                 | _ => OOk
+                 end;
+     c_delete := OOk |}.
+
+(* prior states for a VirtualServerRoute: no VirtualServer (the route is an orphan, nothing is
+   generated); a VirtualServer on the same host that holds the host and references the route
+   from a route with a prefix, exact or regex path *)
+Inductive rctx := RCOrphan | RCRef (k : pkind).
 
 Definition vsr_observe (plus : bool) (c : rctx) (v : vsroute_obj) : crd_obs :=
   let rej := validate_vsr plus v in
+  (* AddOrUpdateVirtualServerRoute: validate; rebuildHosts: buildVirtualServerRoutes of the
+     stored VirtualServer re-validates the route against the referencing path *)
+  let store := if rej then Val None
+               else match c with
+                    | RCOrphan => Val (Some false)
+                    | RCRef k => bad <- revalidate_vsr plus k v ;; Val (Some (negb bad))
+                    end in
   {| c_validate := if rej then ORejected else OOk;
-     c_store := if rej then ORejected else OOk;
-     c_extend := if rej then OOk else
-                 match c with RCOrphan => OOk | RCReferenced => unit_outcome (gen_vsr v) end;
+     c_store := match store with Val None => ORejected | Val (Some _) => OOk | Pan => OPanic end;
+     c_extend := match store with
+                 | Val (Some true) => unit_outcome (gen_vsr v)
+                 | _ => OOk
+                 end;
      c_delete := OOk |}.
 
 (* --- the finite shape spaces *)
@@ -878,7 +961,7 @@ Record route_sh := { rs_action : act_sh; rs_splits : splits_sh; rs_matches : mat
 Definition route_of (r : route_sh) : route :=
   {| rt_action := action_of (rs_action r); rt_splits := splits_of (rs_splits r);
      rt_matches := matches_of (rs_matches r); rt_errpages := errpages_of (rs_errpages r);
-     rt_route := rs_route r |}.
+     rt_route := rs_route r; rt_kind := PkPrefix; rt_match := true |}.
 
 Inductive tls_sh := Tl0 | Tl1 (secret : bool) (redirect : option bool) (cm : bool).
 Definition tls_of (t : tls_sh) : option vtls :=
@@ -911,7 +994,9 @@ Definition pass_route : route := route_of {| rs_action := ActPass; rs_splits := 
 
 (* a VirtualServer shape varies one sub-object around a valid base (one upstream "u", one
    route that passes to it) *)
-Inductive vs_shape := VsBare | VsRoute (r : route_sh) | VsTls (t : tls_sh) (listener : bool) | VsUp (u : up_sh).
+(* VsRef k: one route with a path of kind k that only references the VirtualServerRoute *)
+Inductive vs_shape := VsBare | VsRoute (r : route_sh) | VsTls (t : tls_sh) (listener : bool) | VsUp (u : up_sh)
+                    | VsRef (k : pkind).
 Definition vs_of (s : vs_shape) : vserver_obj :=
   match s with
   | VsBare => {| vo_tls := None; vo_listener := None; vo_upstreams := []; vo_routes := [] |}
@@ -921,16 +1006,25 @@ Definition vs_of (s : vs_shape) : vserver_obj :=
                     vo_upstreams := [upstream_of UpBare]; vo_routes := [pass_route] |}
   | VsUp u => {| vo_tls := None; vo_listener := None; vo_upstreams := [upstream_of u];
                  vo_routes := [pass_route] |}
+  | VsRef k => {| vo_tls := None; vo_listener := None; vo_upstreams := [upstream_of UpBare];
+                  vo_routes := [{| rt_action := None; rt_splits := []; rt_matches := []; rt_errpages := [];
+                                   rt_route := true; rt_kind := k; rt_match := true |}] |}
   end.
 
-Inductive vsr_shape := VrBare | VrRoute (r : route_sh) | VrUp (u : up_sh).
+(* the subroute paths of a VirtualServerRoute shape are the path of the referencing route of the
+   prior state (so they agree with it), except VrOther (one subroute with another path); VrTwo
+   has two subroutes *)
+Inductive vsr_shape := VrBare | VrRoute (r : route_sh) | VrUp (u : up_sh) | VrTwo | VrOther.
 Definition vsr_of (s : vsr_shape) : vsroute_obj :=
   match s with
   | VrBare => {| vr_upstreams := []; vr_subroutes := [] |}
   | VrRoute r => {| vr_upstreams := [upstream_of UpBare]; vr_subroutes := [route_of r] |}
   | VrUp u => {| vr_upstreams := [upstream_of u]; vr_subroutes := [pass_route] |}
+  | VrTwo => {| vr_upstreams := [upstream_of UpBare]; vr_subroutes := [pass_route; pass_route] |}
+  | VrOther => {| vr_upstreams := [upstream_of UpBare]; vr_subroutes := [plain_pass PkPrefix false] |}
   end.
 
+Definition all_pkind := [PkPrefix; PkExact; PkRegex].
 Definition all_act_sh := [ActNil; ActEmpty; ActPass; ActRedirect; ActReturn; ActProxy; ActProxyHdr; ActProxyHdrPass; ActTwo].
 Definition all_act2_sh := [A2Nil; A2Pass; A2Return].
 Definition all_splits_sh := Sp0 :: Sp1 :: flat_map (fun a => map (Sp2 a) all_act2_sh) all_act2_sh.
@@ -948,10 +1042,12 @@ Definition all_tls_sh : list tls_sh :=
 Definition all_up_sh := [UpBare; UpHealth false; UpHealth true; UpCookie; UpQueue; UpBuffers; UpBackup;
                          UpBackupNameOnly; UpBackupPortOnly; UpInts].
 Definition all_vs_shapes : list vs_shape :=
-  VsBare :: map VsRoute all_route_sh ++ flat_map (fun t => map (VsTls t) all_bool) all_tls_sh ++ map VsUp all_up_sh.
-Definition all_vsr_shapes : list vsr_shape := VrBare :: map VrRoute all_route_sh ++ map VrUp all_up_sh.
-Definition all_vctx := [VCEmpty; VCOlder; VCGlobal].
-Definition all_rctx := [RCOrphan; RCReferenced].
+  VsBare :: map VsRoute all_route_sh ++ flat_map (fun t => map (VsTls t) all_bool) all_tls_sh ++ map VsUp all_up_sh
+         ++ map VsRef all_pkind.
+Definition all_vsr_shapes : list vsr_shape :=
+  VrBare :: VrTwo :: VrOther :: map VrRoute all_route_sh ++ map VrUp all_up_sh.
+Definition all_vctx := [VCEmpty; VCOlder; VCGlobal; VCVsr0; VCVsr1; VCVsr1Other; VCVsr2].
+Definition all_rctx := RCOrphan :: map RCRef all_pkind.
 
 (* every shape of these two spaces is admitted by the CRD schemas (no field the spaces vary is
    `required`; checked against config/crd/bases by the harness with the structural-schema validator) *)
